@@ -366,7 +366,7 @@ class Interp:
             return c if isinstance(c, (V, PyObj)) else K.from_py_const(c)
         if name in ('True', 'False', 'None'):
             return K.from_py({'True': True, 'False': False, 'None': None}[name])
-        if name in MODULES:
+        if name in MODULES or name in self.w.module_names:
             return PyObj('module', name=name)
         if name in self.w.kinds:
             return PyObj('kind', kind=self.w.kinds[name])
@@ -612,6 +612,8 @@ class Interp:
         return self.binop(node.op, a, b, node)
 
     def binop(self, op, a, b, node):
+        if isinstance(a, V) and isinstance(a.kind, K._Str) and isinstance(op, ast.Mod) and isinstance(b, PyObj):
+            return self.str_format(a, b, node)
         if isinstance(a, PyObj) or isinstance(b, PyObj):
             if isinstance(op, ast.Add):
                 if isinstance(a, PyObj) and a.tag == 'emptylist':
@@ -670,6 +672,8 @@ class Interp:
 
     def to_str(self, v):
         """str(v) / '%s' image as a z3 string."""
+        if isinstance(v, PyObj):
+            return self.p.fresh('str!pyobj', z3.StringSort())
         k = v.kind
         if isinstance(k, K._Str):
             return v.t
@@ -693,7 +697,10 @@ class Interp:
             raise Unsupported('%%-format with non-constant format')
         text = f.as_string()
         # z3 escapes non-ascii as \u{..}; formats here are ascii
-        items = K.tuple_items(args) if isinstance(args.kind, K.Tuple) else [args]
+        if isinstance(args, PyObj):
+            items = args.items if args.tag == 'pytuple' else [args]
+        else:
+            items = K.tuple_items(args) if isinstance(args.kind, K.Tuple) else [args]
         parts, i, n = [], 0, 0
         buf = ''
         while i < len(text):
@@ -925,9 +932,9 @@ BUILTINS = {'len', 'isinstance', 'list', 'tuple', 'set', 'dict', 'sorted', 'enum
             'reversed', 'all', 'any', 'super', 'OrderedDict', 'iter', 'type', 'min', 'max'}
 SPEC_BUILTINS = {'old', 'implies', 'iff', 'forall', 'exists', 'result', 'ite', 'dtype_is',
                  'raised', 'fresh_ref', 'range', 'live', 'key_at', 'log_len', 'distinct',
-                 'unchanged', 'const_seq', 'allocated', 'to_str', 'sel', 'is_none', 'some', 'truthy'}
+                 'unchanged', 'const_seq', 'allocated', 'exc_attr', 'has_exc_attr', '_', 'text_type', 'to_str', 'sel', 'is_none', 'some', 'truthy'}
 
 MODULES = {'six', 'logging', 'logger', 'models', 'collections'}
-MODULE_BUILTINS = {'six.iteritems': 'iteritems', 'six.iterkeys': 'iterkeys',
+MODULE_BUILTINS = {'six.moves.range': 'range', 'six.iteritems': 'iteritems', 'six.iterkeys': 'iterkeys',
                    'six.itervalues': 'itervalues', 'six.text_type': 'str',
                    'collections.OrderedDict': 'OrderedDict'}
